@@ -238,7 +238,12 @@ impl Check for SourceCheck {
         };
         // Empty data with infinite repeat is vacuous.
         let rep = if len == 0 && rep == Rep::Infinite { Rep::Finite(2) } else { rep };
-        ctx.ev(|| format!("C16 {kind:?} len {len} repeat {rep:?} stream {small}"));
+        // Stray bytes after the last whole sample (file and recording kinds).
+        let junk: usize = if matches!(kind, Kind::FileU32 | Kind::FileC32 | Kind::SigmfRecordingC32) && src.chance(1, 4) { src.range(1, 7) } else { 0 };
+        if junk > 0 {
+            ctx.count("file_ends_in_partial_sample");
+        }
+        ctx.ev(|| format!("C16 {kind:?} len {len} repeat {rep:?} stream {small} junk {junk}"));
         if ctx.sample.is_none() {
             ctx.sample = Some(json!({"source": format!("{kind:?}"), "data_len": len, "repeat": format!("{rep:?}"), "stream_bytes": small}));
         }
@@ -276,7 +281,14 @@ impl Check for SourceCheck {
                                 Kind::FileC32 => ser(&c32_data),
                                 _ => ser(&u8_data),
                             };
-                            std::fs::File::create(&path).and_then(|mut f| f.write_all(&raw)).map_err(|e| e.to_string())?;
+                            // Sometimes the file ends in a partial sample (1..size-1
+                            // stray bytes): they belong to no sample, in any repetition.
+                            let mut on_disk = raw.clone();
+                            if !matches!(kind, Kind::FileU8) && junk > 0 {
+                                let sz = if matches!(kind, Kind::FileU32) { 4 } else { 8 };
+                                on_disk.extend((0..1 + (junk - 1) % (sz - 1)).map(|i| 0xE0u8 + i as u8));
+                            }
+                            std::fs::File::create(&path).and_then(|mut f| f.write_all(&on_disk)).map_err(|e| e.to_string())?;
                             match kind {
                                 Kind::FileU32 => {
                                     let (mut b, o) = FileSource::<u32>::new(&path).map_err(|e| e.to_string())?;
@@ -305,7 +317,11 @@ impl Check for SourceCheck {
                             let base = dir.path().join("capture.sigmf");
                             let raw = ser(&c32_data);
                             std::fs::write(dir.path().join("capture.sigmf-meta"), sigmf_meta("cf32_le")).map_err(|e| e.to_string())?;
-                            std::fs::write(dir.path().join("capture.sigmf-data"), &raw).map_err(|e| e.to_string())?;
+                            let mut on_disk = raw.clone();
+                            if junk > 0 {
+                                on_disk.extend((0..1 + (junk - 1) % 7).map(|i| 0xE0u8 + i as u8));
+                            }
+                            std::fs::write(dir.path().join("capture.sigmf-data"), &on_disk).map_err(|e| e.to_string())?;
                             let (b, o) = SigMFSourceBuilder::<Complex>::new(base).repeat(rep.make()).build().map_err(|e| e.to_string())?;
                             let mut c = Case::new("SigMFSource(recording)", format!("len {len} repeat {rep:?}"), Box::new(b));
                             c.outs = vec![StreamOut::new(o)];
@@ -425,7 +441,11 @@ impl Check for SourceCheck {
                         }
                         if after == e && had_room {
                             calls_since_complete += 1;
-                            if calls_since_complete > 3 {
+                            // A file that holds stray bytes but no whole sample is
+                            // "complete" from the start, yet the source still has to
+                            // walk through its repetitions (a read and a rewind each).
+                            let bound = 3 + if junk > 0 { if let Rep::Finite(k) = rep { 3 * k as usize } else { 0 } } else { 0 };
+                            if calls_since_complete > bound {
                                 return Err(Violation::new(format!("C16:{kname}:eof-late"), format!("{kname} len {len} repeat {rep:?}: all {e} items emitted but no EOF in {calls_since_complete} further calls (verdicts {verdict_log:?})")));
                             }
                         }
